@@ -384,7 +384,10 @@ def stage_cli_subprocess(ctx, findings):
             fails = []
             if r["out_changed"]:
                 fails.append(("outside:cli_subprocess", f"`{entry}` changed {r['out_changed']} outside the sandbox"))
-            if r["cls"]["must_refuse"] and r["rc"] == 0:
+            if r["p"] == "" and job.get("cmd", "write") != "write" and not r["changed"] and not r["out_changed"]:
+                # `-o ""` is "no output file" to the CLI (the result goes to stdout): no path was given, nothing was touched
+                ctx.count("cli_subprocess:empty_output_option")
+            elif r["cls"]["must_refuse"] and r["rc"] == 0:
                 fails.append(("not-refused:cli_subprocess", f"`{entry}` exited 0 for a path that must be refused; changed={r['changed']}"))
             elif r["cls"]["must_refuse"] and r["changed"]:
                 fails.append(("io-before-refusal:cli_subprocess", f"`{entry}` refused but changed {r['changed']}"))
